@@ -94,9 +94,39 @@ var evals int64
 // checkTree stores entries (filters) and queries with names using Match, or
 // stores entries (names) and queries with filters using Search.
 func checkTree(r *h.Run, dir string, entries []entry, queries []string, label string) {
+	checkTreeAfter(r, dir, entries, nil, queries, label)
+}
+
+// checkTreeAfter is checkTree on a tree with a past: the entries in gone were
+// stored as well and have been removed again (Remove, or Empty when no kept
+// entry shares the topic) before the queries. What is stored is `entries`.
+func checkTreeAfter(r *h.Run, dir string, entries, gone []entry, queries []string, label string) {
 	t := topic.NewStandardTree()
+	for i, e := range gone {
+		if i%2 == 0 {
+			t.Add(e.topic, e.value)
+		}
+	}
 	for _, e := range entries {
 		t.Add(e.topic, e.value)
+	}
+	for i, e := range gone {
+		if i%2 == 1 {
+			t.Add(e.topic, e.value)
+		}
+	}
+	for i, e := range gone {
+		shared := false
+		for _, k := range entries {
+			if k.topic == e.topic {
+				shared = true
+			}
+		}
+		if i%3 == 2 && !shared {
+			t.Empty(e.topic)
+		} else {
+			t.Remove(e.topic, e.value)
+		}
 	}
 	for _, q := range queries {
 		atomic.AddInt64(&evals, 1)
@@ -156,7 +186,7 @@ func TestCheck(t *testing.T) {
 	r := h.New("C04", "exploration")
 	depth := r.Pick(3, 4)
 	names, filters := universe(depth)
-	r.Rule(fmt.Sprintf("exhaustive: names = all level sequences over {a,b,empty} of depth 1..%d (%d), filters = all sequences over {a,b,empty,+} of depth 1..%d plus every shorter prefix followed by '#' (%d); every (filter,name) pair alone in both directions, every pair of filters x every name and every pair of names x every filter (second entry also with the same value: de-duplication), the whole universe in one tree; plus random sets over alphabets up to 8 symbols incl. multi-byte UTF-8, depth <= 12. Non-trivial/distinct = single (filter,name) pairs containing a wildcard or an empty level (pair-of-entries cases are counted in counters only)", depth, len(names), depth, len(filters)))
+	r.Rule(fmt.Sprintf("exhaustive: names = all level sequences over {a,b,empty} of depth 1..%d (%d), filters = all sequences over {a,b,empty,+} of depth 1..%d plus every shorter prefix followed by '#' (%d); every (filter,name) pair alone in both directions, every pair of filters x every name and every pair of names x every filter (second entry also with the same value: de-duplication), the whole universe in one tree; a third of the pairs again with one of the two entries removed before the queries; plus random sets (also with level-prefixes, extensions and fresh entries stored and removed again) over alphabets up to 8 symbols incl. multi-byte UTF-8, depth <= 12. Non-trivial/distinct = single (filter,name) pairs containing a wildcard or an empty level (pair-of-entries cases are counted in counters only)", depth, len(names), depth, len(filters)))
 	r.Assume("internal/ref/topic.go Matches() is a faithful reading of MQTT 3.1.1 §4.7 without the '$' rule")
 	r.Exhaustive()
 
@@ -183,6 +213,10 @@ func TestCheck(t *testing.T) {
 	h.Parallel(len(filters), 16, func(i int) {
 		for j := i + 1; j < len(filters); j++ {
 			checkTree(r, "match", []entry{{filters[i], 1}, {filters[j], 2}}, names, "filter pair")
+			if (i+j)%3 == 0 {
+				checkTreeAfter(r, "match", []entry{{filters[i], 1}}, []entry{{filters[j], 2}}, names, "filter pair, second removed again")
+				checkTreeAfter(r, "match", []entry{{filters[j], 2}}, []entry{{filters[i], 1}}, names, "filter pair, first removed again")
+			}
 			if (i+j)%5 == 0 {
 				checkTree(r, "match", []entry{{filters[i], 7}, {filters[j], 7}}, names, "filter pair, same value")
 			}
@@ -192,6 +226,10 @@ func TestCheck(t *testing.T) {
 	h.Parallel(len(names), 16, func(i int) {
 		for j := i + 1; j < len(names); j++ {
 			checkTree(r, "search", []entry{{names[i], 1}, {names[j], 2}}, filters, "name pair")
+			if (i+j)%3 == 0 {
+				checkTreeAfter(r, "search", []entry{{names[i], 1}}, []entry{{names[j], 2}}, filters, "name pair, second removed again")
+				checkTreeAfter(r, "search", []entry{{names[j], 2}}, []entry{{names[i], 1}}, filters, "name pair, first removed again")
+			}
 			if (i+j)%5 == 0 {
 				checkTree(r, "search", []entry{{names[i], 7}, {names[j], 7}}, filters, "name pair, same value")
 			}
@@ -269,6 +307,30 @@ func TestCheck(t *testing.T) {
 		}
 		checkTree(r, "match", fs, qn, "random filter set")
 		checkTree(r, "search", ns, qf, "random name set")
+		// the same sets in trees with a past: level-prefixes, extensions and
+		// fresh entries that were stored and removed again
+		past := func(kept []entry, filter bool) []entry {
+			var gone []entry
+			for _, e := range kept {
+				switch rng.Intn(4) {
+				case 0:
+					if k := strings.LastIndex(e.topic, "/"); k > 0 {
+						gone = append(gone, entry{e.topic[:k], 100 + rng.Intn(3)})
+					}
+				case 1:
+					if !strings.HasSuffix(e.topic, "#") {
+						gone = append(gone, entry{e.topic + "/" + alpha[rng.Intn(len(alpha))], 100 + rng.Intn(3)})
+					}
+				case 2:
+					gone = append(gone, entry{mk(filter), 100 + rng.Intn(3)})
+				case 3:
+					gone = append(gone, entry{e.topic, 100 + rng.Intn(3)})
+				}
+			}
+			return gone
+		}
+		checkTreeAfter(r, "match", fs, past(fs, true), qn, "random filter set with removed entries")
+		checkTreeAfter(r, "search", ns, past(ns, false), qf, "random name set with removed entries")
 		for k := 0; k < 4; k++ {
 			if nontrivial(fs[0].topic, qn[k]) {
 				r.NonTrivial(fs[0].topic + "|" + qn[k])
